@@ -1,9 +1,13 @@
 #!/bin/sh
 # seedsweep.sh : apply every seeded change in turn, run the check of its property (and of the properties
 # listed in seeded/<id>/also_check, if any), record what the check said in seeded/<id>/verif_result.json.
+# Optional arguments: property ids (C15 C06 ...) - only the seeded changes of those properties are re-run.
 cd /verif || exit 2
 for d in seeded/*/; do
   id=$(basename $d)
+  if [ $# -gt 0 ]; then
+    case " $* " in *" ${id%%-*} "*) ;; *) continue;; esac
+  fi
   [ -f $d/patch.diff ] || continue
   prop=$(python3 -c "import json;print(json.load(open('$d/meta.json'))['property'])" 2>/dev/null || echo ${id%%-*})
   props="$prop $(cat $d/also_check 2>/dev/null)"
